@@ -569,6 +569,11 @@ func (hni *HyperNodesInfo) addChild(parent, member string) error {
 
 	childHn, ok := hni.hyperNodes[member]
 	if !ok {
+		// The member has no entry that could record its parent (it was never created, or it was
+		// deleted while still claimed): another HyperNode listing it is a second parent as well.
+		if others := hni.hyperNodesThatClaimMember(member, parent); len(others) > 0 {
+			return fmt.Errorf("HyperNode %s is already a member of %v, and cannot set another parent %s", member, others, parent)
+		}
 		klog.InfoS("HyperNode not exists in cache, maybe not created or not be watched, will set parent first", "name", member, "parent", parent)
 		childHn = NewHyperNodeInfo(&topologyv1alpha1.HyperNode{ObjectMeta: metav1.ObjectMeta{
 			Name: member,
